@@ -300,6 +300,14 @@ func runC20(c *Check, w *World) {
 	if pipe != nil && pipe.modT != nil {
 		checkModTable(c, w, "R20.2.1", strings.TrimPrefix(pipe.modT.Args[0].Sym, "otp."), 1, 9)
 	}
+	// the computed modulus is only used for supported lengths (native refuses everything outside 1..10)
+	if powFn != nil {
+		EachInstr(der, func(in ssa.Instruction) {
+			if cl, ok := in.(*ssa.Call); ok && cl.Call.StaticCallee() == powFn {
+				checkIndexGate(c, w, iv, "R20.2.2", dfn, "digits-gate@"+powFn.Name(), cl.Call.Args[0], in, 1, 10, "the code length")
+			}
+		})
+	}
 	// the padded form is returned exactly when the rendered number is shorter than the requested length
 	okCond := false
 	EachInstr(der, func(in ssa.Instruction) {
